@@ -68,6 +68,8 @@ enum FixKind {
 #[derive(Default)]
 enum AddNewline {
   Leading,
+  /// On the same line, separated by a space.
+  LeadingSpace,
   Trailing,
   #[default]
   None,
@@ -97,6 +99,7 @@ impl FixKind {
       FixKind::Import { module, import } => {
         let (leading, trailing) = match newline {
           AddNewline::Leading => ("\n", ""),
+          AddNewline::LeadingSpace => (" ", ""),
           AddNewline::Trailing => ("", "\n"),
           AddNewline::None => ("", ""),
         };
@@ -136,6 +139,16 @@ fn import_insertion_start(ctx: &Context) -> SourcePos {
     .unwrap_or(code_start)
 }
 
+/// Whether anything but white space follows `pos` on its line.
+fn code_follows_on_line(ctx: &Context, pos: SourcePos) -> bool {
+  let text_info = ctx.text_info();
+  let line_end = text_info.line_end(text_info.line_index(pos));
+  !text_info
+    .range_text(&SourceRange::new(pos, line_end))
+    .trim()
+    .is_empty()
+}
+
 impl NoNodeGlobalsHandler {
   fn fix_change(
     &self,
@@ -149,10 +162,14 @@ impl NoNodeGlobalsHandler {
     let (fix_range, add_newline) = if matches!(fix_kind, FixKind::Import { .. })
     {
       if let Some(range) = self.most_recent_import_range {
-        (
-          SourceRange::new(range.end(), range.end()),
-          AddNewline::Leading,
-        )
+        // More code on the line of the last import stays on that line, so that
+        // a line-level ignore directive above it keeps covering it.
+        let add_newline = if code_follows_on_line(ctx, range.end()) {
+          AddNewline::LeadingSpace
+        } else {
+          AddNewline::Leading
+        };
+        (SourceRange::new(range.end(), range.end()), add_newline)
       } else {
         let code_start = import_insertion_start(ctx);
         (
